@@ -20,6 +20,7 @@ Record finv (s : fstate) (rs : regs) : Prop := {
   fi_pkg_complete : forall k, pkg_registered rs k ->
                     exists fl, dget (norm_descs (fs_descs s)) k = Some (VPkg fl);
   fi_path : forall p, path_files (fs_bypath s) p = path_filter rs p;
+  fi_paths : NoDup (map (fun r => f_path (snd r)) rs);
   fi_num : fs_num s = length rs;
   fi_abs : Permutation (abs_files s) rs
 }.
@@ -41,6 +42,7 @@ Proof.
     apply name_eqb_eq in E. inversion H; subst. split; [reflexivity | now left].
   - intros k [->|(fid & f & [] & _)]. exists []. reflexivity.
   - reflexivity.
+  - constructor.
   - reflexivity.
   - apply perm_nil.
 Qed.
@@ -55,6 +57,7 @@ Proof.
   - exact (fi_pkg_sound _ _ I).
   - exact (fi_pkg_complete _ _ I).
   - exact (fi_path _ _ I).
+  - exact (fi_paths _ _ I).
   - exact (fi_num _ _ I).
   - exact (fi_abs _ _ I).
 Qed.
@@ -275,6 +278,11 @@ Section Success.
       destruct (name_eqb (f_path f) p) eqn:En.
       + apply name_eqb_eq in En. subst p. rewrite (fi_path _ _ I (f_path f)). reflexivity.
       + rewrite app_nil_r. exact (fi_path _ _ I p).
+    - (* paths *) rewrite map_app. cbn [map snd].
+      apply (Permutation_NoDup (Permutation_cons_append _ _)). constructor; [|exact (fi_paths _ _ I)].
+      intros Hin. apply in_map_iff in Hin. destruct Hin as ([fid' f'] & E & Hin). cbn [snd] in E.
+      assert (P : path_registered rs (f_path f)) by now exists fid', f'.
+      apply path_filter_registered in P. apply P. rewrite <- (fi_path _ _ I). exact Hpath.
     - (* num *) rewrite app_length. cbn [length]. rewrite (fi_num _ _ I). lia.
     - (* abs *) unfold abs_files. cbn [fs_bypath]. rewrite Hpath. cbn [app].
       eapply Permutation_trans.
